@@ -71,6 +71,8 @@ class SimFile(io.IOBase):
         self.n_tell = 0
         self.bytes_read = 0
         self.writes = 0
+        self.closes = 0
+        self._sim_closed = False
         self.cut_hit = 0          # reads that were clipped by / started beyond the cut
         self.rot_hit = 0          # reads that returned at least one rotted byte
         self.eio_fired = 0
@@ -89,10 +91,12 @@ class SimFile(io.IOBase):
         return False
 
     def tell(self) -> int:
+        self._check_open()
         self.n_tell += 1
         return self._pos
 
     def seek(self, offset: int, whence: int = SEEK_SET) -> int:
+        self._check_open()
         if whence == SEEK_SET:
             new = offset
         elif whence == SEEK_CUR:
@@ -111,6 +115,7 @@ class SimFile(io.IOBase):
         return new
 
     def read(self, size: Optional[int] = -1) -> bytes:
+        self._check_open()
         if size is None or size < 0:
             size = max(0, self._len - self._pos)
         self.n_read += 1
@@ -159,9 +164,16 @@ class SimFile(io.IOBase):
         return None
 
     def close(self):
-        # the tool never closes the handle; keep the object usable so that a
-        # spurious close() is an observation, not a crash of the harness
-        self._digest.update(b"c;")
+        # like a real file object: once closed (the unchanged tool never closes the handle while an image is in use),
+        # every further read / seek / tell raises ValueError.  The harness-side helpers below keep working.
+        if not self._sim_closed:
+            self._digest.update(b"c;")
+        self._sim_closed = True
+        self.closes += 1
+
+    def _check_open(self):
+        if self._sim_closed:
+            raise ValueError("I/O operation on closed file.")
 
     # -- helpers for the harness (never called by the tool) -----------------
     @property
